@@ -28,7 +28,7 @@ Definition layout_code (l : layout) : Z := match l with L2d => 0 | LBandFirst =>
     Result: layout and (nbands, h, w) of the band-first array handed to GDAL.
 
       if pix.ndim == 2:
-          if yaxis == 1: pix = pix.transpose([1, 0])      (dims (x, y), since fix 43d71f8)
+          if yaxis == 1: pix = pix.transpose([1, 0])      (dims (x, y), since fix 22d302d)
           h, w = pix.shape; nbands = 1
       elif pix.ndim == 3:
           band_last = (pix.shape[:2] == geobox.shape) if yaxis is None else (yaxis == 0)
